@@ -51,7 +51,7 @@ def report (w : World) (extra : List String) : World × List String :=
     [s!"out={hex s.out}",
      s!"st bufp={s.bufp} argc={s.argc} argv={offs s.argv} ring={s.ring.length} mem={hex (trimZeros s.mem)}"]
     ++ (if s.fault then ["!! MODEL-FAULT"] else []) ++ (if s.stuck then ["!! MODEL-STUCK"] else [])
-  ({ w with s := { s with caps := [], out := [], wlog := [], lines := [], eaten := [] } }, lines)
+  ({ w with s := { s with caps := [], out := [], wlog := [], lines := [], eaten := [], ran := [] } }, lines)
 
 def tableLine (t : Table) : String :=
   ",".intercalate (t.filterMap fun e => e.map fun c => match c.name with | some n => hex n | none => "-")
